@@ -10,6 +10,7 @@ import z3
 
 import mirsym
 import oblig
+import summaries
 from common import Inconclusive, Obligation, Report
 from mirsym import Agg, Bool, EnumV, Int, Lazy, ListV
 from obligations import C06
@@ -88,7 +89,15 @@ def run():
     guarded("rehash tail", tail)
 
     # ---- O2b: task closure: sent iff hash_fn returned Some; all members sent once
-    guarded("rehash task closure", lambda: rep.add(task_obligation(prog, engs, fn)))
+    def task():
+        o = task_obligation(prog, engs, fn)
+        if o.verdict == "violated":
+            from obligations import C15
+            C15.replay(o, ctx)
+            if o.verdict == "inconclusive":
+                o.verdict = "violated"      # let the content battery try
+        rep.add(o)
+    guarded("rehash task closure", task)
 
     # ---- O2c: hash errors turn into None (never into a bogus hash)
     def errs():
@@ -169,7 +178,9 @@ def task_obligation(prog, engs, fn, key="rehash:task"):
     lists = [i for i, (nme, ty) in enumerate(caps) if "Vec<" in ty and "HashedFileInfo" in ty]
     if len(lists) != 1:
         raise Inconclusive("captures of the rehash task closure not identified: %s" % caps)
-    eng = oblig.engine(prog, unroll=3, inline=oblig.module_inliner(prog, "group.rs", TASK_LEAVES))
+    import listsum
+    eng = oblig.engine(prog, unroll=6, inline=oblig.module_inliner(prog, "group.rs", TASK_LEAVES),
+                       extra={r"^<.* as (std::iter::)?Iterator>::(skip|take)$": listsum.s_iter_skip_take})
     engs.append(eng)
     items = [Lazy("m0", "HashedFileInfo"), Lazy("m1", "HashedFileInfo")]
     fields = {i: (ListV(items) if i == lists[0] else Lazy("cap_" + nme, "?")) for i, (nme, ty) in enumerate(caps)}
@@ -178,16 +189,32 @@ def task_obligation(prog, engs, fn, key="rehash:task"):
     def prop(q):
         hc = [e for e in q.events if e.kind == "call" and re.search(r"Fn(Mut|Once)?(<.*>)?>::call", e.callee)]
         snd = called(q, r"Sender::send$")
-        if len(hc) != 1 or not isinstance(hc[0].ret, Lazy):
+        if not hc or not all(isinstance(h.ret, Lazy) for h in hc):
             return z3.BoolVal(False)
-        some = z3.BitVec(mirsym.sanitize(hc[0].ret.name + "#d"), 64) == 1
         if q.status == "panic" and snd:
             # `tx.send(..).unwrap()` failed: receiver gone - not a silent drop
             return None
-        bases = sorted(getattr(e.args[1], "base", None) or getattr(e.args[1], "name", "?") for e in snd)
-        all_sent = bases == ["m0", "m1"]
-        return z3.And(z3.BoolVal(bool(snd)) == some, z3.Implies(some, z3.BoolVal(all_sent)))
-    return oblig.check_paths(eng, qs, "rehash task: members are sent iff the hash function returned Some; every path of the id-group exactly once",
+        st = mirsym.State()
+        st.mem, st.pc = q.mem, list(q.pc)
+        # which member each call of the hash function is about (the names of one file id are tried in order)
+        asked = []
+        for h in hc:
+            cn = " ".join(summaries.canon(eng, st, a) for a in h.args)
+            who = [m for m in ("m0", "m1") if re.search(r"\b%s\b" % m, cn)]
+            if len(who) != 1:
+                return z3.BoolVal(False)
+            asked.append(who[0])
+        some = [z3.BitVec(mirsym.sanitize(h.ret.name + "#d"), 64) == 1 for h in hc]
+        bases = [getattr(e.args[1], "base", None) or getattr(e.args[1], "name", "?") for e in snd]
+        order_ok = asked == ["m0", "m1"][:len(asked)]
+        if snd:
+            # the last name asked gave the hash, every name before it failed (and is left out); all names from it on are sent once
+            k = len(asked) - 1
+            want = ["m0", "m1"][k:]
+            return z3.And(z3.BoolVal(order_ok and sorted(bases) == want), some[k], *[z3.Not(x) for x in some[:k]])
+        # nothing sent: every name of the file was tried and none could be hashed (one failing name does not take its siblings along)
+        return z3.And(z3.BoolVal(order_ok and len(asked) == 2), *[z3.Not(x) for x in some])
+    return oblig.check_paths(eng, qs, "rehash task: the names of one file id are tried in order until one can be hashed; that name and the ones after it are sent once each; nothing is sent only if every name failed",
                              prop, fn(), bounds="id-groups of 2 paths, loop unrolled 3", key=key,
                              allow=("return", "panic", "diverge"))
 
